@@ -280,3 +280,18 @@ Lemma WQ_G12 : WQ G12.
 Proof. apply wqb_sound. vm_compute. reflexivity. Qed.
 Lemma WQ_G10 : WQ G10.
 Proof. apply wqb_sound. vm_compute. reflexivity. Qed.
+
+(* G13: dedicated port 2 of service 1 with its ONLY sub-interface 3, marked (nmark); the port is connected to service
+   port 5 of service 6 over link 4.  The prune of proposed_fixes/C08-8 removes the sub-interface and nothing else - the
+   port above it is not owned by it; prune before C08-8 does not visit the sub-interface at all. *)
+Definition G13 : graph := mkGraph
+  [ mkNode 1 CNS 12 1 false 1; mkNode 2 CCP 4 2 false 1; mkNode 3 CCP 5 3 true 1; mkNode 4 CLink 14 4 false 1;
+    mkNode 5 CCP 1 5 false 1; mkNode 6 CNS 13 6 false 1 ]
+  [ mkEdge 1 2 RConnects; mkEdge 2 3 RConnects; mkEdge 2 4 RConnects; mkEdge 4 5 RConnects; mkEdge 5 6 RConnects ].
+
+Example ex_prune_only_child :
+  trace_of (run (exec true OPrune7 []) G13) = [] /\
+  ok_of (run (exec true OPrune8 []) G13) = true /\
+  trace_of (run (exec true OPrune8 []) G13) = [3] /\
+  with_children G13 2 = [2; 3] /\ marked G13 3 = true.
+Proof. vm_compute. repeat split; reflexivity. Qed.
